@@ -19,6 +19,8 @@ def ins_scenarios(rng, n):
         sc['pool']['enable_insights'] = True
         for op in sc['ops']:
             op.setdefault('dur', {'kind': 'hash', 'salt': rng.randint(0, 99), 'unit': 0.01})
+            if op.get('input') != 'nd' and rng.random() < .3:
+                op['ret'] = 'falsy'        # tasks that return None, 0, '', [], 0.0, False are tasks like any other
         if rng.random() < .25:
             # the workers are started by apply submissions (insights have to be reset / present then too)
             k = rng.randint(1, 6)
